@@ -6,6 +6,7 @@ import FontVerif.Lemmas.ToPath
 import FontVerif.Lemmas.Carve
 import FontVerif.Model.DrawInst
 import FontVerif.Lemmas.HintState
+import FontVerif.Gen.C12Src
 set_option linter.unusedVariables false
 namespace FontVerif.C12
 open FontVerif FontVerif.ToPath FontVerif.Carve FontVerif.DrawInst FontVerif.HintState
@@ -278,5 +279,39 @@ def exCfg : Cfg Nat := ⟨1, 2, [64], 3, 1, 0, 8, 0, 1⟩
 example : (reconfigure exRun exDirty exCfg).toOption.map
       (fun i => (i.instructions, i.storage, i.functions, i.graphics, i.twilightScaled))
     = some ([some (1, 2, 165, 0), none], [0, 640, 0], [none], 1, [(0, 0)]) := by rfl
+
+/-! ## 5. tie to the source text (data regenerated by translate/c12_src.py on every run) -/
+
+theorem cond_true (n : Nat) : Carve.cond true n = n := rfl
+
+open FontVerif.Gen.C12Src in
+/-- the model's carve program *is* the sequence of `alloc_slice` calls found in
+`FreeTypeOutlineMemory::new` (order, element sizes/alignments from the struct's field types, count
+fields, conditions) -/
+theorem ft_program_is_source (c : Counts) (embedded : Bool) :
+    ftProgram c embedded = ftShapeSrc.map (instantiate c embedded) := by
+  simp [ftProgram, ftShapeSrc, instantiate, condHolds, Counts.field, cond_true]
+
+open FontVerif.Gen.C12Src in
+theorem hb_program_is_source (c : Counts) :
+    hbProgram c = hbShapeSrc.map (instantiate c false) := by
+  simp [hbProgram, hbShapeSrc, instantiate, condHolds, Counts.field, cond_true]
+
+open FontVerif.Gen.C12Src in
+/-- the model's size formula is the linear form obtained by executing the statements of
+`Outline::required_buffer_size` symbolically -/
+theorem required_size_is_source (c : Counts) (embedded : Bool) :
+    requiredBufferSize c embedded = evalSizeTable sizeTableSrc c (c.hasHinting && embedded) := by
+  unfold requiredBufferSize evalSizeTable
+  cases (c.hasHinting && embedded) <;> cases hv : c.hasVariations <;>
+    simp [sizeTableSrc, List.find?, Counts.field] <;> (repeat' split) <;> omega
+
+open FontVerif.Gen.C12Src in
+/-- struct declaration orders used for rendering; field/action table of `HintInstance::setup`; and
+the completeness of the reset: no field of `struct HintInstance` survives a reconfigure -/
+theorem source_tables_match_model :
+    ftFieldOrder = ftFieldOrderSrc ∧
+    instFieldsSrc = setupActions ∧
+    resetComplete instFieldsSrc fontResetSrc = true := by decide
 
 end FontVerif.C12
